@@ -18,7 +18,9 @@ import (
 	"io"
 	"net"
 	"os"
+	"runtime/debug"
 	"strings"
+	"sync"
 	"time"
 
 	"github.com/iDigitalFlame/xmt/c2"
@@ -301,7 +303,49 @@ type item struct{ s, k int } // s < 0: sweep
 
 // ---------------------------------------------------------------- one history
 
-func runHistory(h HistSpec) {
+// runToken: a scenario that the watchdog gave up on must not report anything later
+type runToken struct {
+	mu        sync.Mutex
+	abandoned bool
+}
+
+// safeRun runs one scenario in its own goroutine under recover() and a watchdog: a panic or a stall of the
+// code under test becomes an oracle failure whose replay is the scenario (sizes, arrival order, wake-ups,
+// seed), and the run goes on with the next scenario.
+func safeRun(h HistSpec) {
+	tok := &runToken{}
+	done := make(chan string, 1)
+	go func() {
+		defer func() {
+			if x := recover(); x != nil {
+				done <- fmt.Sprintf("%v\n%s", x, debug.Stack())
+				return
+			}
+			done <- ""
+		}()
+		runHistory(h, tok)
+	}()
+	limit := 120 * time.Second
+	if h.NoModel {
+		limit = 300 * time.Second
+	}
+	select {
+	case p := <-done:
+		if p != "" {
+			if len(p) > 1500 {
+				p = p[:1500]
+			}
+			out.Fail("panic while running the scenario: "+strings.SplitN(p, "\n", 2)[0], "scenario-panic", map[string]interface{}{"history": h, "F": F, "panic": p})
+		}
+	case <-time.After(limit):
+		tok.mu.Lock()
+		tok.abandoned = true
+		tok.mu.Unlock()
+		out.Fail(fmt.Sprintf("the scenario did not finish within %s", limit), "scenario-stalled", map[string]interface{}{"history": h, "F": F})
+	}
+}
+
+func runHistory(h HistSpec, tok *runToken) {
 	rng := vh.NewRand(h.OrderSeed)
 	c2s := h.Dir == "c2s"
 	snd := c2.VerifC02NewSession(idA, !c2s)
@@ -454,10 +498,11 @@ func runHistory(h HistSpec) {
 		payload []byte
 	}
 	var (
-		outs      []string
-		outsDesc  []interface{}
-		delivered []delivery
-		anomalies []string
+		outs          []string
+		outsDesc      []interface{}
+		delivered     []delivery
+		anomalies     []string
+		scenarioPanic bool
 	)
 	hopBits := func(sI, k int) int {
 		x := 0
@@ -476,7 +521,15 @@ func runHistory(h HistSpec) {
 	for si := 0; si < len(sched); si++ {
 		it := sched[si]
 		if it.s < 0 {
-			rcv.Sweep()
+			func() {
+				defer func() {
+					if x := recover(); x != nil {
+						anomalies = append(anomalies, fmt.Sprintf("panic in markSweepFrags at schedule position %d: %v", si, x))
+						scenarioPanic = true
+					}
+				}()
+				rcv.Sweep()
+			}()
 			outs = append(outs, "OoNone")
 			outsDesc = append(outsDesc, "sweep")
 			schedTerms = append(schedTerms, "ISweep")
@@ -523,6 +576,10 @@ func runHistory(h HistSpec) {
 			}()
 			err = rcv.Receive(arr)
 		}()
+		if pan {
+			anomalies = append(anomalies, fmt.Sprintf("panic in receive() at schedule position %d", si))
+			scenarioPanic = true
+		}
 		evs, drops := rcv.Events(), rcv.DrainSend()
 		for _, e := range evs {
 			delivered = append(delivered, delivery{int(e.ID), int(e.Job), append([]byte(nil), e.Payload()...)})
@@ -703,6 +760,7 @@ func runHistory(h HistSpec) {
 		}
 		if x := lloop.Panic(); x != "" {
 			anomalies = append(anomalies, "panic in listen(): "+x)
+			scenarioPanic = true
 		}
 	}
 
@@ -827,6 +885,26 @@ func runHistory(h HistSpec) {
 			otherFail = true
 		}
 	}
+	// residual state: a table entry without a cluster is never legitimate, and on a client a group that saw
+	// none of its fragments during the last fragMaxMisses wake-ups must be gone (markSweepFrags)
+	for _, r := range residue {
+		if r.C < 0 {
+			fails = append(fails, fmt.Sprintf("group 0x%X is still in the reassembly table with a nil cluster", r.Group))
+			otherFail = true
+		}
+	}
+	if !listenMode {
+		for i, st := range sends {
+			if st.frag && firstPos[i] >= 0 && since[i] >= fragMaxMisses {
+				for _, r := range residue {
+					if int64(r.Group) == st.group {
+						fails = append(fails, fmt.Sprintf("send %d: group 0x%X saw no fragment during the last %d wake-ups and is still in the reassembly table", i, st.group, since[i]))
+						otherFail = true
+					}
+				}
+			}
+		}
+	}
 	for _, a := range anomalies {
 		fails = append(fails, a)
 		otherFail = true
@@ -869,6 +947,11 @@ func runHistory(h HistSpec) {
 	}
 	desc := map[string]interface{}{"history": h, "F": F, "sends": sendDesc, "arrivals": schedDesc, "outcomes": outsDesc, "residue": residue}
 	class := h.Class + "/" + h.Dir
+	tok.mu.Lock()
+	defer tok.mu.Unlock()
+	if tok.abandoned {
+		return
+	}
 	if h.NoModel || anyRandom(h) {
 		out.Count(class, fmt.Sprint(h), nontrivial)
 	} else {
@@ -885,6 +968,8 @@ func runHistory(h HistSpec) {
 		// the key is the SHAPE of the input, never the outcome
 		var key string
 		switch {
+		case scenarioPanic:
+			key = "scenario-panic"
 		case overflow && !otherFail:
 			key = "write-true-fragments-exceed-free-slots"
 		case notPos0 && !otherFail:
@@ -987,7 +1072,7 @@ func main() {
 		if err := json.Unmarshal(b, &r); err != nil {
 			panic(err)
 		}
-		runHistory(r.Input.History)
+		safeRun(r.Input.History)
 		out.Finish()
 		return
 	}
@@ -1010,7 +1095,7 @@ func main() {
 				h.Sends[i].DevEmpty = true
 			}
 		}
-		runHistory(h)
+		safeRun(h)
 	}
 	plain := func(class string, n int, order string) HistSpec {
 		return HistSpec{Class: class, Sends: []SendSpec{mkSend(rng, n)}, Order: order, Omit: -1}
